@@ -476,8 +476,17 @@ pub fn expect_run(case: &ProcCase, p: &Parsed) -> Expect {
 			let as_reader = is_stdin || case.nommap;
 			let v = if as_reader {
 				let rfault = plan.as_ref().and_then(|pl| pl.fail).map(|(at, _)| RFault { at, kind: "Other".into() });
-				let rd = SimReader::new(0, Rc::new(bytes.clone()), Sched::whole(), rfault, vec![], None, log.clone());
-				guarded(|| translator.translate_reader(rd, from.map(Fmt::xt)).map_err(|e| e.to_string()))
+				// The model's producer follows the same read schedule the interposer imposes
+				// (outcomes may legitimately depend on it where C02 is violated, e.g. F11);
+				// standard input additionally sits behind std's own 8 KiB BufReader.
+				let sched = plan.as_ref().map_or_else(Sched::whole, |pl| pl.sched.clone());
+				let rd = SimReader::new(0, Rc::new(bytes.clone()), sched, rfault, vec![], None, log.clone());
+				if is_stdin {
+					let rd = std::io::BufReader::with_capacity(8192, rd);
+					guarded(|| translator.translate_reader(rd, from.map(Fmt::xt)).map_err(|e| e.to_string()))
+				} else {
+					guarded(|| translator.translate_reader(rd, from.map(Fmt::xt)).map_err(|e| e.to_string()))
+				}
 			} else {
 				guarded(|| translator.translate_slice(&bytes, from.map(Fmt::xt)).map_err(|e| e.to_string()))
 			};
